@@ -36,7 +36,9 @@ def _c02_cases(tier, seed):
     for _ in range(n):
         yield {"lineup": _lineup(rnd), "E": rnd.choice([1, 2, 3]), "N": rnd.choice([5, 12]), "dims": rnd.choice([1, 2, 3]),
                "seed": rnd.randrange(1000), "calls": [rnd.randint(1, 3) for _ in range(rnd.randint(1, 3))],
-               "kind": rnd.choice(["normal", "normal", "extreme", "mutating"]), "filters": rnd.random() < 0.4}
+               "kind": rnd.choice(["normal", "normal", "extreme", "mutating"]), "filters": rnd.random() < 0.4,
+               # simulated series shorter / longer than the real ones (legal: a warning only)
+               "sim_length": rnd.choice([None, None, 4, 30])}
 
 
 def _c02_check(reg, case):
@@ -47,6 +49,9 @@ def _c02_check(reg, case):
     if case.get("filters") and case["kind"] == "normal":
         from black_it.loss_functions.msm import MethodOfMomentsLoss
         loss = MethodOfMomentsLoss(coordinate_filters=[e2e.demean_filter], moment_calculator=e2e.two_moments)
+    elif case.get("sim_length") is not None:
+        from black_it.loss_functions.msm import MethodOfMomentsLoss
+        loss = MethodOfMomentsLoss(moment_calculator=e2e.two_moments)     # (a loss that accepts differing lengths)
     cal, model, loss, samplers = e2e.make_calibrator(cfg, model=model, loss=loss)
     slog = e2e.SampleLog(samplers)
     table = dict(cal.samplers_id_table)
@@ -285,6 +290,18 @@ def _c11_check(reg, case):
                 return f"a subsequent calibrate() fails: {e}"
         except Exception as e:  # noqa: BLE001
             return f"a subsequent calibrate() fails: {type(e).__name__}: {e}"
+        if not case["rl"]:
+            # "works": the retried batch is the batch that failed - produced by the sampler whose turn it was (the
+            # scheduler must not have moved on while the failed batch was never completed)
+            lineup = list(cal.scheduler.samplers)
+            for b in range(cal.current_batch_index):
+                exp = lineup[b % len(lineup)]
+                rows = np.flatnonzero(cal.batch_num_samp == b)
+                if len(rows) != exp.batch_size or any(
+                        cal.method_samp[r] != cal.samplers_id_table[type(exp).__name__] for r in rows):
+                    return (f"after the fault, batch {b} was produced by another sampler than the one whose turn it was "
+                            f"({type(exp).__name__}, batch size {exp.batch_size}): {len(rows)} rows labelled "
+                            f"{sorted(set(cal.method_samp[rows].tolist()))}")
         return e2e.aligned(cal)
 
 
@@ -807,3 +824,53 @@ def _replay_bootstrap(reg, key, witness):
 
 
 REPLAY["black_it/schedulers/rl/rl_scheduler.py::RLScheduler._add_or_get_bootstrap_sampler"] = _replay_bootstrap
+
+
+def _replay_calibrate(reg, key, witness):
+    """Calibrator.calibrate: the counter-model fixes the CONFIGURATION (n_batches, convergence precision, saving folder
+    or not, ensemble size, verbosity, empty or non-empty history); abstract components (scheduler, samplers, model, loss)
+    are instantiated by real ones - round-robin over cheap samplers, a pure model, scripted losses that hit the
+    convergence threshold at different batches - and the real method is run under its executable contract clauses
+    (post-conditions over the recorded history and the return value, class invariant at exit, frame)."""
+    import warnings
+
+    w = witness if isinstance(witness, dict) else {}
+    ws = w.get("self") if isinstance(w.get("self"), dict) else {}
+
+    def _int(v, default):
+        try:
+            return int(v)
+        except (TypeError, ValueError):
+            return default
+    nb = max(0, min(_int(w.get("n_batches"), 2), 4))
+    E = max(1, min(_int(ws.get("ensemble_size"), 1), 3))
+    folder = ws.get("saving_folder") is not None
+    conv = ws.get("convergence_precision")
+    conv = None if conv is None else max(0, min(_int(conv, 2), 6))
+    func, _cls = rt.resolve(key)
+    scripts = [None, [3.0, 2.0, 1.0, 0.004, 2.0, 0.0004, 5.0] * 6, [0.0] * 40, [5.0, 0.04] * 20]
+    for nbv in sorted({nb, 1, 3}):
+        for convv in ([conv] if conv is not None else [None, 2]):
+            for script in scripts:
+                for warm in (0, 1):
+                    with e2e.tmp_folder() as d, warnings.catch_warnings():
+                        warnings.simplefilter("ignore")
+                        cfg = {"lineup": [("halton", 2), ("random", 1), ("rseq", 3)], "E": E, "dims": 2, "seed": 5,
+                               "conv": convv, "folder": d if folder else None, "verbose": bool(ws.get("verbose", False))}
+                        cal, *_ = e2e.make_calibrator(cfg, model=e2e.pure_model,
+                                                      loss=e2e.make_loss(scripted=script) if script else None)
+                        what = (f"calibrate({nbv}) with convergence_precision={convv}, saving folder={'yes' if folder else 'no'}, "
+                                f"ensemble_size={E}, scripted losses={script[:7] if script else None}, "
+                                f"{'after a first calibrate(1)' if warm else 'on a fresh calibrator'}")
+                        try:
+                            with e2e.quiet():
+                                if warm:
+                                    cal.calibrate(1)
+                                rt.check_call(reg, key, func, cal, {"n_batches": nbv})
+                                rt.check_invariant(reg, "Calibrator", cal)
+                        except rt.ContractViolation as e:
+                            return f"{what} -> {e}"
+    return None
+
+
+REPLAY["black_it/calibrator.py::Calibrator.calibrate"] = _replay_calibrate
